@@ -41,3 +41,20 @@ Section Run.
                 | None => (c, RPropagate e) end
     end.
 End Run.
+
+(* ---------------------------------------------------------------- Inverter._map_response: which exceptions of sensor.read() become None *)
+(* classes of the Python built-in hierarchy that can appear in the except clause *)
+Inductive pyclass := PcValueError | PcIndexError | PcOverflowError | PcKeyError | PcZeroDivisionError | PcTypeError | PcNotImplementedError
+                   | PcAttributeError | PcArithmeticError | PcLookupError | PcException.
+(* the exceptions the sensor model can raise (Prelude.exn without the library's own two), as built-in classes *)
+Inductive pyraised := RValue | RIndex | ROverflow | RKey | RZeroDiv | RType | RNotImpl | RAttr.
+(* isinstance(raised, cls) in the built-in hierarchy: IndexError, KeyError < LookupError; OverflowError, ZeroDivisionError < ArithmeticError;
+   NotImplementedError < RuntimeError; everything < Exception *)
+Definition py_isinstance (r : pyraised) (c : pyclass) : bool :=
+  match c, r with
+  | PcException, _ => true
+  | PcValueError, RValue | PcIndexError, RIndex | PcOverflowError, ROverflow | PcKeyError, RKey | PcZeroDivisionError, RZeroDiv
+  | PcTypeError, RType | PcNotImplementedError, RNotImpl | PcAttributeError, RAttr => true
+  | PcArithmeticError, ROverflow | PcArithmeticError, RZeroDiv | PcLookupError, RIndex | PcLookupError, RKey => true
+  | _, _ => false end.
+Definition becomes_none (catches : list pyclass) (r : pyraised) : bool := existsb (py_isinstance r) catches.
